@@ -128,6 +128,13 @@ fn add_types_prefix(ts_type: &str) -> String {
     }
 }
 
+/// Verification hook: public access to `add_types_prefix` (compiled only with
+/// `--cfg thwbh_tauri_typegen_verif`)
+#[cfg(thwbh_tauri_typegen_verif)]
+pub fn verif_add_types_prefix(ts_type: &str) -> String {
+    add_types_prefix(ts_type)
+}
+
 #[cfg(test)]
 mod tests {
     use super::*;
